@@ -2,8 +2,9 @@
 """C18 — the jsonlogic command is a faithful, chainable wrapper of the library.
 
 All paths of main (config `cmdline`, crate `jsonlogic`):
-  K1  print once, last, only on success: the binary contains exactly one stdout
-      write, outside any loop; its block is edge-dominated by the success edge of
+  K1  print once, last, only on success: in the library an evaluation can reach
+      only the function bound to `log` writes to stdout; the binary contains
+      exactly one stdout write, outside any loop; its block is edge-dominated by the success edge of
       every fallible step that can precede it (rule parse, data parse, apply, and
       the stdin read on its path); no fallible step is reachable after it; every
       failure edge reaches the return without passing it;
@@ -276,6 +277,29 @@ def run(ctx):
                 if strip_refs(ex_[2][0]) == d:
                     arg_def = dd
     ctx.check(arg_def is not None, "K3.argument-verbatim", "otherwise the data text is the second argument verbatim", "no definition of the data text as the data argument itself on the non-\"-\" edge", where=m.where(sb), fn=m.key, nontrivial=True)
+
+    # ---------------- K1 (library side): what else can reach stdout before the result line
+    lf = ctx.facts("cmdline", "jsonlogic_rs")
+    from .roles import Roles
+    lroles = Roles(lf)
+    inside = lroles.inside()
+    log_fn, _le = lroles.fn_of("log")
+    log_unit = {bb.key for bb in lroles.unit(log_fn.key)}
+    out_sites = []
+    for k in sorted(inside):
+        lb = lf.body(k)
+        if lb is None or lb.kind not in ("fn", "closure"):
+            continue
+        for bi, t in lb.calls():
+            pth = callee_path(t) or ""
+            if pth in (PRINT,) or re.search(r"^std::io::(stdout|Stdout)|^<std::io::Stdout(Lock<'_>)? as std::io::Write>", pth):
+                out_sites.append((lb, bi, pth))
+    stray = [(lb, bi, pth) for (lb, bi, pth) in out_sites if lb.key not in log_unit]
+    ctx.floor("stdout writes in the library's evaluation reach (cmdline)", len(out_sites), 1)
+    for lb, bi, pth in stray:
+        ctx.fail("K1.library-stdout", "%s|%s" % (lb.key.split("::", 1)[1], pth.rsplit("::", 1)[-1]), "the library writes to stdout outside the log operator (%s): the command's output is no longer log lines followed by exactly one result line" % pth, where=lb.where(bi), fn=lb.key)
+    if not stray:
+        ctx.ok("K1.library-stdout", "in the library an evaluation can reach, only the function bound to `log` writes to stdout (%d site(s))" % len(out_sites), nontrivial=True)
 
     # ---------------- K5
     man = tomllib.load(open(os.path.join(ex.REPO, "Cargo.toml"), "rb"))
